@@ -18,6 +18,10 @@
 (*                chain, last cheque and stored total;                         *)
 (*   Reconnect  = the init-stream handshake: the peer presents the last cheque *)
 (*                it holds and the node adopts it if it is newer.              *)
+(*   RefStart/RefGet1/RefGet2 = the live refresh of one peer (TrafficInit: 24 h   *)
+(*                ticker / API) as a goroutine of its own: its two reads of the *)
+(*                persisted totals are gates; the in-memory totals are          *)
+(*                replaced by max(chain, cheque, what was read).                *)
 (* PersistUnderLock = TRUE is the design in which the store write happens      *)
 (* before the peer lock is released (the property C33 then follows); FALSE is  *)
 (* the shape of the code (write after unlock), used to generate schedules.     *)
@@ -30,7 +34,9 @@ CONSTANTS NP,                \* peers are 1..NP
           Threads,           \* goroutines that call into the service
           Thr,               \* payment threshold handed to Pay
           InitBal,           \* chain balance of this node
-          PersistUnderLock   \* see above
+          PersistUnderLock,  \* see above
+          RefreshReadsUnderLock  \* TRUE: the refresh reads the persisted totals of a peer while it holds the peer
+                             \* lock (the design under which C33 follows); FALSE: it reads them before locking
 
 Peers == 1..NP
 Kinds == {"owed", "served"}   \* retrieveTraffic (what we owe) / transferTraffic (what we served)
@@ -133,6 +139,27 @@ Reconnect(s, p) ==
   ELSE [s EXCEPT !.synced[p] = TRUE]
 
 (***************************************************************************)
+(* Live refresh of one peer by a goroutine of its own (C33)                  *)
+(*   loc.x = persisted owed total as read, loc.v = persisted served total    *)
+(***************************************************************************)
+RefStartOK(s, t, p) == s.pc[t] = "idle" /\ (RefreshReadsUnderLock => s.lock[p] = 0)
+RefStart(s, t, p) == [s EXCEPT !.pc[t] = "g1", !.loc[t] = [k |-> "owed", p |-> p, x |-> 0, v |-> 0],
+                               !.lock[p] = IF RefreshReadsUnderLock THEN t ELSE @]
+RefGet1OK(s, t) == s.pc[t] = "g1"
+RefGet1(s, t) == [s EXCEPT !.pc[t] = "g2", !.loc[t].x = s.st["owed"][s.loc[t].p]]
+\* the second read, then (under the peer lock) the totals are replaced
+RefGet2OK(s, t) == s.pc[t] = "g2" /\ (~RefreshReadsUnderLock => s.lock[s.loc[t].p] = 0)
+RefGet2(s, t) ==
+  LET c == s.loc[t]
+      p == c.p
+  IN [s EXCEPT !.tot["owed"][p] = MaxI(MaxI(s.chCashed[p], s.stSent[p]), c.x),
+               !.tot["served"][p] = s.st["served"][p],
+               !.sent[p] = MaxI(s.chCashed[p], s.stSent[p]),
+               !.cashed[p] = s.chCashed[p], !.nbal = s.chBal,
+               !.pc[t] = "idle", !.loc[t] = NoLoc,
+               !.lock[p] = IF RefreshReadsUnderLock THEN 0 ELSE @]
+
+(***************************************************************************)
 (* Sequential calls (used for histories: C31)                               *)
 (***************************************************************************)
 SeqThread == CHOOSE t \in Threads : TRUE
@@ -160,6 +187,7 @@ Next ==
         \/ \E t \in Threads, p \in Peers :
              PayStartOK(S, t, p) /\ PayIssues(S, p) /\ Do(PayStart(S, t, p), "paystart")
         \/ AllIdle(S) /\ Do(Refresh(S), "refresh")
+        \/ \E t \in Threads, p \in Peers : RefStartOK(S, t, p) /\ S.synced[p] /\ Do(RefStart(S, t, p), "refstart")
         \/ \E p \in Peers : Do(PeerCash(S, p), "peercash")
         \/ \E p \in Peers : AllIdle(S) /\ Do(CashOut(S, p), "cashout")
         \/ Do(Restart(S), "restart")
@@ -168,6 +196,8 @@ Next ==
      /\ \/ \E t \in Threads : UpdPersistOK(S, t) /\ Do(UpdPersist(S, t), "persist")
         \/ \E t \in Threads, ok \in BOOLEAN : PayEmitOK(S, t) /\ Do(PayEmit(S, t, ok), "emit")
         \/ \E t \in Threads : PayPersistOK(S, t) /\ Do(PayPersist(S, t), "persistcheque")
+        \/ \E t \in Threads : RefGet1OK(S, t) /\ Do(RefGet1(S, t), "refget")
+        \/ \E t \in Threads : RefGet2OK(S, t) /\ Do(RefGet2(S, t), "refget")
 
 Spec == Init /\ [][Next]_<<vars, nops>>
 
@@ -178,7 +208,7 @@ TypeOK == /\ \A k \in Kinds, p \in Peers : S.tot[k][p] \in Nat /\ S.st[k][p] \in
           /\ \A p \in Peers : S.sent[p] \in Nat /\ S.lock[p] \in Threads \cup {0}
 
 \* C31: issuing a cheque never changes the record of what peers cashed
-CashedFrame == [][S'.cashed # S.cashed => res'.op \in {"refresh", "cashout", "restart"}]_<<vars, nops>>
+CashedFrame == [][S'.cashed # S.cashed => res'.op \in {"refresh", "refget", "cashout", "restart"}]_<<vars, nops>>
 \* C31: cumulative payouts strictly increase ...
 PayoutsIncrease == [][\A p \in Peers : S'.held[p] >= S.held[p]
                         /\ (res'.op = "emit" /\ S'.held[p] # S.held[p] => S'.held[p] > S.held[p])]_<<vars, nops>>
